@@ -157,6 +157,11 @@ func (r *sortedDataReader) IsAuthoritative(q []byte, loc *Location) (ns bool, au
 
 	r.find(q, loc, parseResult, preIterationCheck, postIterationCheck)
 
+	if !ns {
+		// no NS on the path: the walk ends at the root, as in DataReader.IsAuthoritative
+		zoneCutLength = 1
+	}
+
 	zoneCut = q[len(q)-zoneCutLength:]
 
 	return
